@@ -20,6 +20,7 @@ import (
 	"runtime/debug"
 	"sort"
 	"strconv"
+	"strings"
 
 	"github.com/apmckinlay/gsuneido/db19/index/iface"
 	"github.com/apmckinlay/gsuneido/db19/index/ixbuf"
@@ -60,6 +61,8 @@ type scen struct {
 	noff  int
 	nit   int
 	dead  bool
+	// skip-scan tables (composite universes only), skipStart = 1
+	pfx, sfx []string
 }
 
 func newScen(tr *vh.Trace, rnd *rand.Rand, keys []string, kind string) *scen {
@@ -72,7 +75,11 @@ func newScen(tr *vh.Trace, rnd *rand.Rand, keys []string, kind string) *scen {
 	if keys[0] == "" {
 		empty = 1
 	}
-	tr.Emit(vh.E("Scn", "K", s.K, "emptykey", empty, "kind", kind))
+	pg, sf := []int{}, []int{}
+	if strings.Contains(kind, "composite") {
+		pg, sf, s.pfx, s.sfx = nastykeys.SplitTables(keys, func(k string) (string, string) { return ixkey.SplitPrefixSuffix(k, 1) })
+	}
+	tr.Emit(vh.E("Scn", "K", s.K, "emptykey", empty, "kind", kind, "pg", pg, "sf", sf))
 	stats["scenarios"]++
 	return s
 }
@@ -302,8 +309,16 @@ func (s *scen) walk(b int, n int) {
 	it := ib.Iterator()
 	s.tr.Emit(vh.E("ItNew", "it", id, "b", b))
 	for i := 0; i < n; i++ {
-		opn, k, k2 := "", 0, 0
-		switch x := rnd.Intn(20); {
+		opn, k, k2, k3, k4 := "", 0, 0, 0, 0
+		x := rnd.Intn(20)
+		if s.pfx != nil && rnd.Intn(7) == 0 {
+			x = 100
+		}
+		switch {
+		case x == 100: // skip-scan: prefix range, suffix range (ranks into the prefix / suffix tables)
+			opn = "skip"
+			k, k2 = bounds(rnd, s.pfx)
+			k3, k4 = bounds(rnd, s.sfx)
 		case x < 7:
 			opn = "next"
 		case x < 13:
@@ -334,6 +349,8 @@ func (s *scen) walk(b int, n int) {
 				it.Rewind()
 			case "range":
 				it.Range(iface.Range{Org: s.keyOf(k), End: s.keyOf(k2)})
+			case "skip":
+				it.SkipScan(rangeOf(s.pfx, k, k2), rangeOf(s.sfx, k3, k4), 1)
 			}
 			if it.Eof() {
 				eof = 1
@@ -344,12 +361,64 @@ func (s *scen) walk(b int, n int) {
 				tag, off = s.decode(o)
 			}
 		})
-		s.tr.Emit(vh.E("ItOp", "it", id, "op", opn, "k", k, "k2", k2, "res", res, "tag", tag, "off", off, "eof", eof, "ok", ok, "msg", msg))
+		s.tr.Emit(vh.E("ItOp", "it", id, "op", opn, "k", k, "k2", k2, "k3", k3, "k4", k4, "res", res, "tag", tag, "off", off, "eof", eof, "ok", ok, "msg", msg))
 		stats["iterops"]++
 		if ok == 0 {
 			return
 		}
 	}
+}
+
+// bounds picks a non-empty range description org < end over a table of n strings:
+// 0 = ixkey.Min, n+1 = ixkey.Max. (Degenerate skip-scan ranges are not generated: with
+// End = "" the initial skip group "" collides with an out-of-range empty prefix in Prev,
+// see the report; the properties do not cover skip-scan over empty range descriptions.)
+func bounds(rnd *rand.Rand, tab []string) (int, int) {
+	for {
+		o, e := bounds1(rnd, len(tab))
+		r := rangeOf(tab, o, e)
+		if r.Org < r.End { // rank 0 and rank 1 are the same string when the table starts with ""
+			return o, e
+		}
+	}
+}
+
+func bounds1(rnd *rand.Rand, n int) (int, int) {
+	switch rnd.Intn(4) {
+	case 0:
+		return 0, n + 1
+	case 1:
+		o := rnd.Intn(n + 1)
+		return o, min(n+1, o+1+rnd.Intn(2))
+	}
+	o, e := rnd.Intn(n+2), rnd.Intn(n+2)
+	if o > e {
+		o, e = e, o
+	}
+	if o == e {
+		if e <= n {
+			e++
+		} else {
+			o--
+		}
+	}
+	return o, e
+}
+
+func rangeOf(tab []string, o, e int) iface.Range {
+	at := func(i int) string {
+		if i <= 0 {
+			return ixkey.Min
+		}
+		if i > len(tab) {
+			return ixkey.Max
+		}
+		return tab[i-1]
+	}
+	if o == 0 && e == len(tab)+1 {
+		return iface.All
+	}
+	return iface.Range{Org: at(o), End: at(e)}
 }
 
 // layouts: which ranks each of the nb buffers touches
